@@ -71,6 +71,13 @@ def tree_group(rnd, gid, root):
     progs_ = [dict(kind='tree-nodirs', path=main, include_dirs=None), dict(kind='tree-ext', path=main, include_dirs=[ext]),
               dict(kind='tree-ext-main2', path=main2, include_dirs=[ext]), dict(kind='tree-empty-ext', path=main, include_dirs=[empty, ext]),
               dict(kind='tree-nodirs-main2', path=main2, include_dirs=[])]
+    # twin projects: the same file names, the same sizes (and, once unpacked, the same timestamps) in two directories, the
+    # contents differ - a name, a size or a timestamp identifies no file, only its path does
+    va, vb = rnd.sample(range(0x40020000, 0x40030000, 0x400), 2)
+    for tag, v in (('a', va), ('b', vb)):
+        files[d + 'tw%s/main.asm' % tag] = 'include config.asm\nmain%d:\n    li t0, BASE\n    lw t1, CTRL(t0)\n    j main%d\n' % (gid, gid)
+        files[d + 'tw%s/config.asm' % tag] = 'BASE = 0x%08x\nCTRL = %d\n' % (v, 4 if tag == 'a' else 8)
+        progs_.append(dict(kind='twin-' + tag, path=os.path.join(root, d, 'tw' + tag, 'main.asm'), include_dirs=None))
     for q in progs_:
         q.update(files=files, troot=os.path.join(root, 'g%d' % gid), group='tree%d' % gid)
     return progs_
@@ -108,6 +115,9 @@ def materialise_pool(pool, root):
             os.makedirs(os.path.dirname(path), exist_ok=True)
             with open(path, 'wb') as f:
                 f.write(content if isinstance(content, bytes) else content.encode('utf-8'))
+            # one timestamp for every file, as after a fresh checkout or unpacking an archive: files of different projects
+            # then share name, size and mtime, and only their directory tells them apart
+            os.utime(path, (1700000000, 1700000000))
 
 
 def make_pool(asm, n, root='/nonexistent-bbc16'):
